@@ -460,6 +460,44 @@ func (ba *boolAnalysis) lenIsOne(cond ssa.Value) (k int, neg bool, ok bool) {
 	return
 }
 
+// lenIsZero: cond compares the length of an operand list with a constant such that one edge
+// means "no element"; empty reports whether the edge taken is that one.
+func (ba *boolAnalysis) lenIsZero(cond ssa.Value, taken bool) (k int, empty bool, ok bool) {
+	cond, neg := unwrapNot(cond)
+	bo, isBo := cond.(*ssa.BinOp)
+	if !isBo {
+		return
+	}
+	op, x, y := bo.Op, bo.X, bo.Y
+	if _, isLen := lenArg(x); !isLen {
+		if _, isLen2 := lenArg(y); !isLen2 {
+			return
+		}
+		x, y = y, x
+		op = mirrorOp(op)
+	}
+	lx, _ := lenArg(x)
+	kk, isOp := ba.operandOf(lx)
+	if !isOp {
+		return
+	}
+	c, isC := cfgutilConst(y)
+	if !isC {
+		return
+	}
+	// emptyOnTrue: the true edge means len == 0
+	var emptyOnTrue bool
+	switch {
+	case op == token.EQL && c == 0, op == token.LSS && c == 1, op == token.LEQ && c == 0:
+		emptyOnTrue = true
+	case op == token.NEQ && c == 0, op == token.GTR && c == 0, op == token.GEQ && c == 1:
+		emptyOnTrue = false
+	default:
+		return
+	}
+	return kk, (taken != neg) == emptyOnTrue, true
+}
+
 func (ba *boolAnalysis) sentinel(v ssa.Value) (boolRes, bool) {
 	ld, ok := v.(*ssa.UnOp)
 	if !ok || ld.Op.String() != "*" {
@@ -592,6 +630,23 @@ func analyseBoolNodeWith(p *load.Program, fn *ssa.Function, list *ssa.Parameter,
 	var ind *cfgutil.Induction
 	var flag *ssa.Phi
 	loopOver := -1
+	// what the tests that dominate the merge loop say about the shape of operand k's list
+	shapeAtLoop := func(k int) boolShape {
+		if loop == nil {
+			return shUnknown
+		}
+		out := shUnknown
+		for _, dc := range dominatingConds(loop.Header) {
+			if k2, n2, ok2 := ba.lenIsOne(dc.cond); ok2 && k2 == k {
+				if dc.taken != n2 {
+					out = shOne
+				} else {
+					out = shNotOne
+				}
+			}
+		}
+		return out
+	}
 	if len(loops) == 1 {
 		loop = loops[0]
 		ind = cfgutil.Classify(loop)
@@ -612,6 +667,16 @@ func analyseBoolNodeWith(p *load.Program, fn *ssa.Function, list *ssa.Parameter,
 		loopOver = k
 		for _, e := range loop.Exits {
 			if e.From != loop.Header {
+				// an exit guarded by a shape test that the tests before the loop already decided
+				// the other way can never be taken
+				if ifi, isIf := e.From.Instrs[len(e.From.Instrs)-1].(*ssa.If); isIf {
+					if kk, negL, okL := ba.lenIsOne(ifi.Cond); okL && shapeAtLoop(kk) != shUnknown {
+						one := (e.From.Succs[0] == e.To) != negL
+						if (shapeAtLoop(kk) == shOne) != one {
+							continue
+						}
+					}
+				}
 				ba.fail("the merge loop can be left before every member was merged")
 			}
 		}
@@ -769,6 +834,12 @@ func analyseBoolNodeWith(p *load.Program, fn *ssa.Function, list *ssa.Parameter,
 							n.facts.elem[kk] = want
 						}
 						n.desc += fmt.Sprintf(" %s[i]%smarker", []string{"left", "right"}[k], map[bool]string{true: "==", false: "!="}[isMarker])
+					} else if kk, negL, okL := ba.lenIsOne(ifi.Cond); okL && shapeAtLoop(kk) != shUnknown {
+						// a repeated shape test inside the loop is decided by the tests that dominate the loop
+						one := (i == 0) != negL
+						if (shapeAtLoop(kk) == shOne) != one {
+							continue // infeasible edge
+						}
 					} else {
 						ba.problem("condition in the merge loop that is not a marker test of an operand's member verdict")
 						iterProblem = true
@@ -885,6 +956,16 @@ func analyseBoolNodeWith(p *load.Program, fn *ssa.Function, list *ssa.Parameter,
 				}
 				facts.shape[k] = s
 				desc += fmt.Sprintf(" len(%s)%s1", []string{"left", "right"}[k], map[bool]string{true: "==", false: "!="}[one])
+				continue
+			}
+			if k, empty, ok := ba.lenIsZero(ec.cond, ec.taken); ok {
+				if empty {
+					// the operand list has no element: there is no member whose verdict could be
+					// wrong (the shape of what is returned is L-CLASS's business); nothing to check
+					// on this path
+					feasible = false
+					desc += fmt.Sprintf(" len(%s)==0", []string{"left", "right"}[k])
+				}
 				continue
 			}
 			if k, idx, neg, ok := ba.markerTest(ec.cond); ok {
@@ -1464,16 +1545,28 @@ func (lc *lclassCtx) classify(fn *ssa.Function, list *ssa.Parameter, v ssa.Value
 		}
 		return c
 	case *ssa.Slice:
-		if al, ok := x.X.(*ssa.Alloc); ok && x.Low == nil && x.High == nil {
+		if al, ok := x.X.(*ssa.Alloc); ok && x.Low == nil {
 			if at, ok := al.Type().(*types.Pointer).Elem().(*types.Array); ok {
-				if at.Len() == 1 {
+				// a composite literal of one element, or make([]T, 1) (an array of one sliced [:1])
+				hv, hasC := int64(-1), false
+				if x.High != nil {
+					hv, hasC = cfgutilConst(x.High)
+				}
+				if at.Len() == 1 && (x.High == nil || (hasC && hv == 1)) {
 					return lcOne
 				}
 			}
 		}
 	case *ssa.MakeSlice:
-		if a, ok := lenArg(x.Len); ok && list != nil && a == ssa.Value(list) {
-			return lcN
+		if a, ok := lenArg(x.Len); ok {
+			if list != nil && a == ssa.Value(list) {
+				return lcN
+			}
+			// as long as another list: that list's class
+			return lc.classify(fn, list, a, seen)
+		}
+		if cv, isC := cfgutilConst(x.Len); isC && cv == 1 {
+			return lcOne
 		}
 	case *ssa.UnOp:
 		if x.Op != token.MUL {
@@ -1920,6 +2013,25 @@ func ruleVSelect(c *engine.Context) *report.Rule {
 						walk(s, g, on)
 					}
 					return
+				}
+				// `index < len(verdicts)` is true for every index of the member loop once the verdict
+				// list is known to be as long as the member list: a redundant bound check
+				if bo, isBo := ifi.Cond.(*ssa.BinOp); isBo && f.each == 1 {
+					op, x, y := bo.Op, bo.X, bo.Y
+					if lx, isLen := lenArg(x); isLen && lx == ssa.Value(V) {
+						x, y = y, x
+						op = mirrorOp(op)
+					}
+					if ly, isLen := lenArg(y); isLen && ly == ssa.Value(V) && resolveCell(x) == ind.Index {
+						switch op {
+						case token.LSS:
+							walk(b.Succs[0], f, on)
+							return
+						case token.GEQ:
+							walk(b.Succs[1], f, on)
+							return
+						}
+					}
 				}
 				problems = append(problems, "a condition other than the list-kind test and the member's verdict decides whether a member is handed on ("+condText(ifi.Cond)+")")
 			}
